@@ -149,8 +149,9 @@ Theorem c11_refusal_response_plain : forall f h rest,
 Proof. exact refusal_then_head_plain. Qed.
 
 (** "Without ever requesting the body": over EVERY sequence of the operations available from
-    RecvResponse on ([later_op]: try_response, both proceeds, read, stop_on_chunk_boundary, and
-    as_new_flow's effect on the old flow), the state stays among RecvResponse / RecvBody / Redirect /
+    RecvResponse on ([later_op]: try_response, both proceeds, read -- successful, or failed, in
+    which case the flow continues as [recv_body_after_err], the decoder keeping the state it had
+    reached --, stop_on_chunk_boundary, and as_new_flow's effect on the old flow), the state stays among RecvResponse / RecvBody / Redirect /
     Cleanup, [should_send_body] stays false and Not100Continue stays recorded. *)
 Theorem c11_never_body : forall s s',
   clos_refl_trans _ later_op s s' -> never_body s -> never_body s'.
